@@ -25,7 +25,7 @@ RULE = ("one case = one model (positive/complex share BinaryRBM, mixed uses Puri
         "parameter scales up to 30 incl. saturating conditionals) on which the three monitors run over every start "
         "state, k in {0,1,2,3,5}, overwrite on/off, random start. Non-trivial: every bias and weight non-zero; "
         "distinct by sha256 of parameters.")
-REQUIRED = ["conditional_entries_compared", "kernel_rows_checked", "tapped_bernoulli_draws", "automaton_steps_accepted",
+REQUIRED = ["parameter_changes_on_sampled_state", "continuation_checks", "held_results_rechecked", "conditional_entries_compared", "kernel_rows_checked", "tapped_bernoulli_draws", "automaton_steps_accepted",
             "overwrite_true_checks", "overwrite_false_checks", "empirical_cells_tested", "protected_write_ops_inspected"]
 ANCHOR_FILES = ["qucumber/rbm/binary_rbm.py", "qucumber/rbm/purification_rbm.py"]
 REACH = [
@@ -82,17 +82,48 @@ def lib_conditionals(ctx, rbm, mixed, nv, nh, na):
 
 
 def run_case(case, ctx):
+    """two phases on the SAME state object: fresh parameters, then (after it has been sampled) parameters changed
+    through the usual .data idioms - the sampler must follow the current parameters (histories, not only inputs)."""
     kind, nv, nh, na = case["kind"], case["nv"], case["nh"], case["na"]
     mixed = kind == "mixed"
     rng = np_rng(ID, case["seed"], kind, nv, nh, na, case["rep"])
     scales = gen.SCALES_FULL if (nv + nh) <= 5 else [0.1, 0.5, 1.0, 3.0, 10.0]
     am, ph = gen.draw_model(rng, kind, nv, nh, na if mixed else None, scales=scales)
     st = gen.make_state(kind, am, ph)
+    held = []
+    phase(case, ctx, rng, st, am, "fresh", held, last=False)
+    am2, _ = gen.draw_model(rng, kind, nv, nh, na if mixed else None, scales=scales)
+    how = ["data.copy_", "data-assign", "load_state_dict", "optimizer-step"][case["rep"] % 4 if ctx.tier != "quick" else int(rng.integers(0, 4))]
+    names = gen.PUR_NAMES if mixed else gen.BIN_NAMES
+    rbm = st.rbm_am
+    if how == "data.copy_":
+        gen.set_params(rbm, am2)
+    elif how == "data-assign":
+        for k_, v_ in am2.items():
+            getattr(rbm, names[k_]).data = torch.tensor(np.asarray(v_), dtype=torch.double)
+    elif how == "load_state_dict":
+        rbm.load_state_dict({names[k_]: torch.tensor(np.asarray(v_), dtype=torch.double) for k_, v_ in am2.items()})
+    else:
+        opt = torch.optim.SGD(list(rbm.parameters()), lr=1.0)
+        for k_, v_ in am2.items():
+            p_ = getattr(rbm, names[k_])
+            p_.grad = (p_.data - torch.tensor(np.asarray(v_), dtype=torch.double))
+        opt.step()
+        am2 = gen.get_params(rbm)
+        am2 = {k_: am2[k_] for k_ in (gen.PUR_ORDER if mixed else gen.BIN_ORDER)}
+    ctx.seen("parameter_change_idioms", how)
+    ctx.count("parameter_changes_on_sampled_state")
+    phase(case, ctx, rng, st, am2, "after-" + how, held, last=True)
+
+
+def phase(case, ctx, rng, st, am, label, held, last):
+    kind, nv, nh, na = case["kind"], case["nv"], case["nh"], case["na"]
+    mixed = kind == "mixed"
     rbm = st.rbm_am
     V = R.space(nv)
     N = len(V)
-    tags = {"state": kind}
-    wit = {"am": gen.small_params(am)}
+    tags = {"state": kind, "phase": label.split("-")[0]}
+    wit = {"am": gen.small_params(am), "phase": label}
     units = nh + (na if mixed else 0)
 
     # ------------------------------------------------------------ monitor 1
@@ -247,6 +278,15 @@ def run_case(case, ctx):
                 final = automaton(mon.bern, rows, k, f"{entry}(k={k}, overwrite={overwrite})")
             if final is not None and not np.array_equal(final, rn):
                 ctx.violation("result-not-last-draw", f"{entry}(k={k}) did not return the last visible draw of the chain", tags=tags)
+            for t_, d_, what_ in held:
+                if monitors.digest(t_) != d_:
+                    ctx.violation("earlier-result-clobbered", f"a tensor returned earlier by {what_} was modified by a later "
+                                  f"{entry}(k={k}, overwrite={overwrite}) call", tags=tags)
+                    held.clear()
+                    break
+            ctx.count("held_results_rechecked", len(held))
+            if len(held) < 24:
+                held.append((res, monitors.digest(res), f"{entry}(k={k}, overwrite={overwrite})"))
             if overwrite:
                 ctx.count("overwrite_true_checks")
                 if res.untyped_storage().data_ptr() != init.untyped_storage().data_ptr() or not torch.equal(init, res):
@@ -258,6 +298,18 @@ def run_case(case, ctx):
                     ctx.violation("start-state-modified", f"{entry}(k={k}, overwrite=False) changed the caller's start state", tags=tags)
                 if k > 0 and res.untyped_storage().data_ptr() == init.untyped_storage().data_ptr():
                     ctx.violation("start-state-aliased", f"{entry}(k={k}, overwrite=False) returned the caller's storage", tags=tags)
+    # chains continued across calls without overwriting: the earlier sample must survive
+    s0 = torch.tensor(V[rng.integers(0, N, size=6)], dtype=torch.double)
+    s1 = ctx.lib("sample", st.sample, 2, initial_state=s0, tags=tags)
+    d1 = monitors.digest(s1)
+    s2 = ctx.lib("sample(continued, overwrite=False)", st.sample, 1, initial_state=s1, overwrite=False, tags=tags)
+    s3 = ctx.lib("sample(same shape again)", st.sample, 1, initial_state=s0, tags=tags)
+    ctx.count("continuation_checks")
+    if monitors.digest(s1) != d1:
+        ctx.violation("start-state-modified", "continuing a chain with overwrite=False modified the sample it was started from", tags=tags)
+    if s2.untyped_storage().data_ptr() == s1.untyped_storage().data_ptr() or s3.untyped_storage().data_ptr() in (
+            s1.untyped_storage().data_ptr(), s2.untyped_storage().data_ptr()):
+        ctx.violation("result-aliased", "two non-overwriting sampling calls returned tensors that share storage", tags=tags)
     # random start
     mon = monitors.DispatchMonitor(tap_bernoulli=True)
     ns = 5
@@ -284,7 +336,7 @@ def run_case(case, ctx):
         ctx.count("tap_saw_no_draws_for_random_start")
 
     # ------------------------------------------------------------ monitor 3
-    if stat_case(case):
+    if last and stat_case(case):
         M = 20000 if ctx.tier == "quick" else 200000
         ncases = max(1, n_stat_cases(ctx.tier)) * 3
         import qucumber
